@@ -1,6 +1,7 @@
 //! vcheck <ID> --tier quick|thorough [--replay FILE]
 #![allow(clippy::all)]
 mod alloc;
+mod bftmsgs;
 mod bftsim;
 mod checks;
 mod pipe;
